@@ -377,7 +377,13 @@ impl<R: Read> Read for ChunkedReader<'_, R> {
                 break;
             }
             let to_read = min(self.remaining_in_chunk, out.len());
-            let n = self.inner.read(&mut out[..to_read])?;
+            let n = match self.inner.read(&mut out[..to_read]) {
+                Ok(n) => n,
+                // bytes copied earlier in this call must still be reported: an error from `read`
+                // means that nothing was read (an interrupted read is retried by callers)
+                Err(_) if written > 0 => break,
+                Err(e) => return Err(e),
+            };
             if n == 0 {
                 return Err(io::Error::new(ErrorKind::UnexpectedEof, "chunk truncated"));
             }
